@@ -104,7 +104,7 @@ func run(c *props.Ctx) {
 	// vacuity floors: a bit under what was confirmed by hand on the pinned tree
 	// (and under what the behaviour-preserving refactors of REPORT.md produce)
 	for rule, n := range map[string]int{"MAT-1": 5, "FACE-1": 1, "OWN-2": 4, "AXIS-3": 3, "BASE-1": 2, "CORNER-R": 2, "FORM-1": 1, "GROUP-1": 1,
-		"GROUP-R": 2, "IDX-1": 2, "IDX-3": 1, "MAT-2": 1, "ONE-W": 1, "STREAM-R": 5, "STREAM-W": 2, "TOK-R": 3, "TOK-W": 1, "TXT-1": 8, "USEMTL-R": 1, "ORD-2": 8, "MAT-3": 2, "ENTRY-1": 8, "SINK-1": 3, "NAME-2": 3} {
+		"GROUP-R": 2, "IDX-1": 2, "IDX-3": 1, "MAT-2": 1, "ONE-W": 1, "STREAM-R": 5, "STREAM-W": 2, "TOK-R": 3, "TOK-W": 1, "TXT-1": 8, "USEMTL-R": 1, "ORD-2": 8, "MAT-3": 2, "MAT-4": 1, "ENTRY-1": 8, "SINK-1": 3, "NAME-2": 3} {
 		c.R.Floor(rule, n)
 	}
 }
